@@ -1325,8 +1325,13 @@ func (c *FnCtx) useLemma(st *State, u UseSpec, pos token.Pos) {
 		}
 	}
 	lenv := &Env{c: c, st: st, names: names, pkg: c.fi.Pkg, foreign: true}
+	// "use L(args) when cond": the instance is only justified, and only assumed, under the guard
+	guard := "true"
+	if u.When != "" {
+		guard = env.evalSpecBool(Clause{Expr: u.When, File: u.File, Line: u.Line})
+	}
 	for i, r := range lem.Requires {
-		g := lenv.evalSpecBool(r)
+		g := implies(guard, lenv.evalSpecBool(r))
 		lbl := r.Label
 		if lbl == "" {
 			lbl = fmt.Sprintf("r%d", i+1)
@@ -1337,7 +1342,7 @@ func (c *FnCtx) useLemma(st *State, u UseSpec, pos token.Pos) {
 		c.curPos = save
 	}
 	for _, en := range lem.Ensures {
-		st.Assume(lenv.evalSpecBool(en))
+		st.Assume(implies(guard, lenv.evalSpecBool(en)))
 	}
 }
 
